@@ -1101,6 +1101,34 @@ static void run_op(char **t, int nt)
 		NEED(5); LOC(1);
 		path = sdec(t[3], NULL);
 		idx = (unsigned)atol(t[4]);
+		/* monitor: the getter families are one function seen through three doors - by name with index, by name (index 0), by option */
+		{
+			cfg_opt_t *go = cfg_getopt(loc_cfg, path);
+			const char *why = NULL;
+			if (!strcmp(t[2], "int")) {
+				long a = cfg_getnint(loc_cfg, path, idx);
+				if (go && cfg_opt_getnint(go, idx) != a) why = "cfg_opt_getnint";
+				if (idx == 0 && cfg_getint(loc_cfg, path) != a) why = "cfg_getint";
+			} else if (!strcmp(t[2], "float")) {
+				double a = cfg_getnfloat(loc_cfg, path, idx);
+				if (go && memcmp(&a, (double[]){cfg_opt_getnfloat(go, idx)}, sizeof a)) why = "cfg_opt_getnfloat";
+				if (idx == 0 && memcmp(&a, (double[]){cfg_getfloat(loc_cfg, path)}, sizeof a)) why = "cfg_getfloat";
+			} else if (!strcmp(t[2], "bool")) {
+				cfg_bool_t a = cfg_getnbool(loc_cfg, path, idx);
+				if (go && cfg_opt_getnbool(go, idx) != a) why = "cfg_opt_getnbool";
+				if (idx == 0 && cfg_getbool(loc_cfg, path) != a) why = "cfg_getbool";
+			} else if (!strcmp(t[2], "str")) {
+				char *a = cfg_getnstr(loc_cfg, path, idx);
+				if (go && cfg_opt_getnstr(go, idx) != a) why = "cfg_opt_getnstr";
+				if (idx == 0 && cfg_getstr(loc_cfg, path) != a) why = "cfg_getstr";
+				if (idx == 0 && go && cfg_opt_getstr(go) != a) why = "cfg_opt_getstr";
+			} else if (!strcmp(t[2], "size")) {
+				if (go && cfg_opt_size(go) != cfg_size(loc_cfg, path)) why = "cfg_opt_size";
+			} else if (!strcmp(t[2], "comment")) {
+				if (go && cfg_opt_getcomment(go) != cfg_getcomment(loc_cfg, path)) why = "cfg_opt_getcomment";
+			}
+			if (why) fprintf(LOG, "{\"ev\":\"api-disagree\",\"what\":\"%s\",\"idx\":%u}\n", why, idx);
+		}
 		fprintf(LOG, "{\"ev\":\"get\",\"k\":\"%s\",\"v\":", t[2]);
 		if (!strcmp(t[2], "int")) fprintf(LOG, "%ld", cfg_getnint(loc_cfg, path, idx));
 		else if (!strcmp(t[2], "float")) fprintf(LOG, "\"%a\"", cfg_getnfloat(loc_cfg, path, idx));
